@@ -1507,19 +1507,23 @@ class GitTreeTransform(DiskTreeTransform):
             index_changes = self._generate_index_changes()
             offset = 1
             mover = _FileMover() if _mover is None else _mover
+            limbo_files = dict(self._limbo_files)
             try:
                 child_pb.update(gettext("Apply phase"), 0 + offset, 2 + offset)
                 self._apply_removals(mover)
                 child_pb.update(gettext("Apply phase"), 1 + offset, 2 + offset)
                 modified_paths = self._apply_insertions(mover)
-            except BaseException:
-                mover.rollback()
-                raise
-            else:
-                # Update the index before the replaced content is discarded:
-                # a failure in apply_deletions() must not leave the old index
+                # Update the index while the file moves can still be rolled
+                # back, and before the replaced content is discarded: a
+                # failure in apply_deletions() must not leave the old index
                 # describing the new layout.
                 self._tree._apply_index_changes(index_changes)
+            except BaseException:
+                mover.rollback()
+                # the new content is back in limbo: let finalize() remove it
+                self._limbo_files = limbo_files
+                raise
+            else:
                 mover.apply_deletions()
         self._done = True
         self.finalize()
